@@ -310,3 +310,102 @@ func c20Session(t *rapid.T) {
 func TestVerifC20_Sessions(t *testing.T) {
 	rapid.Check(t, c20Session)
 }
+
+// A preview command that is superseded right after it was started must still
+// be cancelled: the cancel request can arrive before the goroutine that
+// listens for it exists.
+func TestVerifC20_SupersededAtStart(t *testing.T) {
+	rapid.Check(t, func(t *rapid.T) {
+		dir, err := os.MkdirTemp(workDir, "c20b")
+		if err != nil {
+			infra(t, "%v", err)
+		}
+		defer os.RemoveAll(dir)
+		pv := filepath.Join(dir, "pv.sh")
+		os.WriteFile(pv, []byte(pvScript), 0o755)
+		logf := filepath.Join(dir, "pv.log")
+		lines := []string{"it0 ab", "it1 b a", "it2 x-y", "it3 aq", "it4 zz", "it5 ab"}
+		args := []string{"--no-mouse", "--no-sort", "--preview", fmt.Sprintf("sh %s %s never {n} {q} {}", pv, logf), "--preview-window", "right,60%"}
+		s := StartSession(t, SessionCfg{Args: args, Input: []byte(strings.Join(lines, "\n") + "\n"), Width: 100, Height: 12})
+		defer s.Close()
+		if _, ok := s.WaitFor(10, func(st *Status) bool { return !st.Reading && st.MatchCount == len(lines) }); !ok {
+			infra(t, "session did not settle")
+		}
+		rounds := rapid.IntRange(3, 10).Draw(t, "rounds")
+		history := []string{}
+		// CPU contention widens the window between the start of a preview command and
+		// the moment its canceller listens
+		stopBurn := make(chan struct{})
+		for b := 0; b < 6; b++ {
+			go func() {
+				x := 0
+				for {
+					select {
+					case <-stopBurn:
+						return
+					default:
+						for i := 0; i < 100000; i++ {
+							x += i
+						}
+					}
+				}
+			}()
+		}
+		defer close(stopBurn)
+		for r := 0; r < rounds; r++ {
+			a := rapid.SampledFrom([]string{"down", "up", "last", "first"}).Draw(t, "move")
+			b := rapid.SampledFrom([]string{"put(a)", "backward-delete-char", "put(b)", "clear-query"}).Draw(t, "edit")
+			gap := rapid.SampledFrom([]int{0, 0, 1, 3, 8, 20}).Draw(t, "gapMs")
+			s.Post(a)
+			time.Sleep(time.Duration(gap) * time.Millisecond)
+			s.Post(b)
+			history = append(history, fmt.Sprintf("%s, %dms, %s", a, gap, b))
+			time.Sleep(time.Duration(rapid.SampledFrom([]int{0, 10, 60}).Draw(t, "pauseMs")) * time.Millisecond)
+		}
+		// quiescence: the last started command is the one for the current state
+		var st *Status
+		var runs []pvRun
+		why := ""
+		idle, lastSig := 0, ""
+		deadline := time.Now().Add(40 * time.Second)
+		for {
+			cur, err := s.Get(10, 0)
+			if err == nil && !cur.Reading {
+				st = cur
+				runs = readPvLog(logf)
+				why = ""
+				if st.Current != nil {
+					want := fmt.Sprintf("never|%d|%s|%s", st.Current.Index, st.Query, st.Current.Text)
+					if len(runs) == 0 || runs[len(runs)-1].args != want {
+						last := "<none>"
+						if len(runs) > 0 {
+							last = runs[len(runs)-1].args
+						}
+						why = fmt.Sprintf("the preview command that ran last got %q, the focused line / query give %q", last, want)
+					} else if live := livePreviewRuns(s, runs); len(live) > 1 {
+						why = fmt.Sprintf("%d preview commands are alive", len(live))
+					}
+				}
+				if why == "" {
+					break
+				}
+				sig := fmt.Sprint(len(runs), why)
+				if sig == lastSig {
+					idle++
+				} else {
+					idle = 0
+				}
+				lastSig = sig
+			}
+			if idle > 80 || time.Now().After(deadline) || !s.Alive() {
+				break
+			}
+			time.Sleep(50 * time.Millisecond)
+		}
+		vstat.Case("C20/superseded-at-start", strings.Join(history, "|"), true, fmt.Sprintf("rounds=%d", rounds))
+		if why != "" {
+			t.Fatalf("the preview does not catch up: %s\nstate: %s\nhistory (move, gap, edit): %v", why, describe(st), history)
+		}
+		s.Post("abort")
+	})
+}
